@@ -9,6 +9,8 @@ pub mod c09;
 pub mod c10;
 pub mod c11;
 pub mod c12;
+pub mod c13;
+pub mod c14;
 pub mod c05;
 pub mod c06;
 
@@ -25,6 +27,8 @@ pub fn lookup(id: &str) -> Option<Box<dyn Prop>> {
         "C08" => Some(Box::new(c08::C08)),
         "C05" => Some(Box::new(c05::C05)),
         "C09" => Some(Box::new(c09::C09)),
+        "C13" => Some(Box::new(c13::C13)),
+        "C14" => Some(Box::new(c14::C14)),
         _ => None,
     }
 }
